@@ -8,7 +8,9 @@ package main
 
 import (
 	"fmt"
+	"go/constant"
 	"go/token"
+	"go/types"
 	"sort"
 	"strings"
 
@@ -320,72 +322,189 @@ func ruleMultiplicity(r *Run) {
 	}
 }
 
+// dedupKeySite is one place where a de-duplication key is computed: directly in setIMap, or
+// in a helper it calls with the request variables (`sharedLookupKey(req, variables)`).
+type dedupKeySite struct {
+	fn   *ssa.Function
+	vars ssa.Value         // the request variables in fn
+	key  ssa.Value         // the key value in fn
+	at   *ssa.BasicBlock   // the block that hands the key on (the Set call / the return)
+	ok   []*ssa.BasicBlock // in the callers: blocks that use the key; must lie on the helper's ok side
+	okOf []ssa.Value       // the helper's boolean result at those callers
+}
+
+// resolveDedupKey follows a key that is the result of a module helper into that helper: the
+// checks are then made on what the helper returns together with `true`.
+func resolveDedupKey(s dedupKeySite, depth int) []dedupKeySite {
+	var call *ssa.Call
+	idx := 0
+	switch x := s.key.(type) {
+	case *ssa.Extract:
+		if c, ok := x.Tuple.(*ssa.Call); ok {
+			call, idx = c, x.Index
+		}
+	case *ssa.Call:
+		call = x
+	}
+	if call == nil || depth > 2 {
+		return []dedupKeySite{s}
+	}
+	g := call.Call.StaticCallee()
+	if g == nil || !inModule(g) || len(g.Blocks) == 0 || call.Call.IsInvoke() {
+		return []dedupKeySite{s}
+	}
+	pi := -1
+	for i, a := range call.Call.Args {
+		if a == s.vars && i < len(g.Params) {
+			pi = i
+		}
+	}
+	if pi < 0 {
+		return []dedupKeySite{s}
+	}
+	// the helper's boolean result, as seen by the caller
+	var okv ssa.Value
+	bi := -1
+	for i := 0; i < g.Signature.Results().Len(); i++ {
+		if shortType(g.Signature.Results().At(i).Type()) == "bool" {
+			bi = i
+		}
+	}
+	if bi >= 0 && call.Referrers() != nil {
+		for _, ref := range *call.Referrers() {
+			if ex, ok := ref.(*ssa.Extract); ok && ex.Index == bi {
+				okv = ex
+			}
+		}
+	}
+	var out []dedupKeySite
+	for _, ret := range returnsOf(g) {
+		rv := retVals(ret)
+		if idx >= len(rv) {
+			continue
+		}
+		if bi >= 0 && bi < len(rv) {
+			if k, isConst := rv[bi].(*ssa.Const); isConst && k.Value != nil && k.Value.ExactString() == "false" {
+				continue // "no shared key" exit
+			}
+		}
+		n := dedupKeySite{fn: g, vars: g.Params[pi], key: rv[idx], at: ret.Block(), ok: append(append([]*ssa.BasicBlock{}, s.ok...), s.at), okOf: append(append([]ssa.Value{}, s.okOf...), okv)}
+		if bi < 0 {
+			n.ok, n.okOf = s.ok, s.okOf
+		}
+		out = append(out, resolveDedupKey(n, depth+1)...)
+	}
+	if len(out) == 0 {
+		return []dedupKeySite{s}
+	}
+	return out
+}
+
+// onTrueSide: block b is reached only when the boolean v holds.
+func onTrueSide(v ssa.Value, b *ssa.BasicBlock) bool {
+	if v == nil || v.Referrers() == nil {
+		return false
+	}
+	var tests []ssa.Value
+	tests = append(tests, v)
+	for _, iff := range allInstrs(b.Parent()) {
+		i, ok := iff.(*ssa.If)
+		if !ok {
+			continue
+		}
+		var side *ssa.BasicBlock
+		if i.Cond == v {
+			side = i.Block().Succs[0]
+		} else if un, isUn := i.Cond.(*ssa.UnOp); isUn && un.Op == token.NOT && un.X == v {
+			side = i.Block().Succs[1]
+		}
+		if side != nil && len(side.Preds) == 1 && (side == b || side.Dominates(b)) {
+			return true
+		}
+	}
+	return false
+}
+
 func ruleDedup(r *Run) {
 	const rule = "R13k"
 	set := r.Anchor(rule, "executor.(*DepthExecutor).setIMap")
 	if set != nil && len(set.Params) >= 4 {
-		vars := set.Params[3]
 		n := 0
 		for _, ins := range allInstrs(set) {
 			c, ok := ins.(*ssa.Call)
 			if !ok || !strings.HasSuffix(calleeName(&c.Call), "executor.indexMap).Set") || len(c.Call.Args) != 4 {
 				continue
 			}
-			key := c.Call.Args[3]
 			// the fallback key is strconv.Itoa(index): unique per request, no de-duplication
-			if kc, ok := key.(*ssa.Call); ok && calleeName(&kc.Call) == "strconv.Itoa" {
+			if kc, ok := c.Call.Args[3].(*ssa.Call); ok && calleeName(&kc.Call) == "strconv.Itoa" {
 				r.OK(rule, fnName(set), "unique key", r.P.pos(c.Pos()), "requests that are not id-only node lookups get a key that is unique per request (their index)")
 				continue
 			}
 			n++
-			// depends on variables["id"] and on QueryStringHash
-			depID := false
-			for _, i2 := range allInstrs(set) {
-				if lk, ok := i2.(*ssa.Lookup); ok && lk.X == ssa.Value(vars) {
-					if k, ok := lk.Index.(*ssa.Const); ok && k.Value != nil && k.Value.ExactString() == `"id"` {
-						for _, ref := range *lk.Referrers() {
-							if ex, ok := ref.(*ssa.Extract); ok && ex.Index == 0 && dependsOnThroughMem(key, ex) {
+			for _, ks := range resolveDedupKey(dedupKeySite{fn: set, vars: set.Params[3], key: c.Call.Args[3], at: c.Block()}, 0) {
+				fn, vars, key := ks.fn, ks.vars, ks.key
+				site := r.P.pos(c.Pos())
+				if fn != set {
+					site = r.P.pos(fn.Pos())
+				}
+				// depends on variables["id"] and on QueryStringHash
+				depID := false
+				for _, i2 := range allInstrs(fn) {
+					if lk, ok := i2.(*ssa.Lookup); ok && lk.X == vars {
+						if k, ok := lk.Index.(*ssa.Const); ok && k.Value != nil && k.Value.ExactString() == `"id"` {
+							for _, ref := range *lk.Referrers() {
+								if ex, ok := ref.(*ssa.Extract); ok && ex.Index == 0 && dependsOnThroughMem(key, ex) {
+									depID = true
+								}
+							}
+							if !lk.CommaOk && dependsOnThroughMem(key, lk) {
 								depID = true
 							}
 						}
-						if !lk.CommaOk && dependsOnThroughMem(key, lk) {
-							depID = true
+					}
+				}
+				depHash := dependsOnFieldThroughMem(key, "QueryStringHash")
+				r.Check(depID, rule, fnName(fn), "dedup key includes the entity id", site,
+					"the key is computed from variables[\"id\"]",
+					"the de-duplication key does not depend on the entity id taken from the request variables: lookups of different entities can collapse, or the same entity is fetched once per list position")
+				r.Check(depHash, rule, fnName(fn), "dedup key includes the sub-query hash", site,
+					"the key is computed from QueryPlanStep.QueryStringHash",
+					"the de-duplication key ignores the sub-query: two different sub-queries for the same entity would share one answer")
+				// guard: len(variables) == 1 (in either polarity) on the way to the key
+				guarded := false
+				for _, i2 := range allInstrs(fn) {
+					iff, ok := i2.(*ssa.If)
+					if !ok {
+						continue
+					}
+					bo, ok := iff.Cond.(*ssa.BinOp)
+					if !ok || (bo.Op != token.EQL && bo.Op != token.NEQ) || !isIntConst(bo.Y, 1) {
+						continue
+					}
+					lc, ok := bo.X.(*ssa.Call)
+					if !ok {
+						continue
+					}
+					if b, ok := lc.Call.Value.(*ssa.Builtin); ok && b.Name() == "len" && lc.Call.Args[0] == vars {
+						s := iff.Block().Succs[0]
+						if bo.Op == token.NEQ {
+							s = iff.Block().Succs[1]
+						}
+						if len(s.Preds) == 1 && (s == ks.at || s.Dominates(ks.at)) {
+							guarded = true
 						}
 					}
 				}
-			}
-			depHash := dependsOnFieldThroughMem(key, "QueryStringHash")
-			r.Check(depID, rule, fnName(set), "dedup key includes the entity id", r.P.pos(c.Pos()),
-				"the key is computed from variables[\"id\"]",
-				"the de-duplication key does not depend on the entity id taken from the request variables: lookups of different entities can collapse, or the same entity is fetched once per list position")
-			r.Check(depHash, rule, fnName(set), "dedup key includes the sub-query hash", r.P.pos(c.Pos()),
-				"the key is computed from QueryPlanStep.QueryStringHash",
-				"the de-duplication key ignores the sub-query: two different sub-queries for the same entity would share one answer")
-			// guard: len(variables) == 1
-			guarded := false
-			for _, i2 := range allInstrs(set) {
-				iff, ok := i2.(*ssa.If)
-				if !ok {
-					continue
-				}
-				bo, ok := iff.Cond.(*ssa.BinOp)
-				if !ok || bo.Op != token.EQL || !isIntConst(bo.Y, 1) {
-					continue
-				}
-				lc, ok := bo.X.(*ssa.Call)
-				if !ok {
-					continue
-				}
-				if b, ok := lc.Call.Value.(*ssa.Builtin); ok && b.Name() == "len" && lc.Call.Args[0] == ssa.Value(vars) {
-					s := iff.Block().Succs[0]
-					if len(s.Preds) == 1 && (s == c.Block() || s.Dominates(c.Block())) {
-						guarded = true
+				// a helper's key is used only where the helper said "shared"
+				for i, b := range ks.ok {
+					if !onTrueSide(ks.okOf[i], b) {
+						guarded = false
 					}
 				}
+				r.Check(guarded, rule, fnName(fn), "dedup only without other variables", site,
+					"de-duplication happens only under len(variables) == 1 (the id alone)",
+					"requests are de-duplicated although they may carry other variables than the id: answers computed for different variable values would be shared")
 			}
-			r.Check(guarded, rule, fnName(set), "dedup only without other variables", r.P.pos(c.Pos()),
-				"de-duplication happens only under len(variables) == 1 (the id alone)",
-				"requests are de-duplicated although they may carry other variables than the id: answers computed for different variable values would be shared")
 		}
 		r.AtLeast(rule, "de-duplicating Set calls", n, 1)
 	}
@@ -402,29 +521,278 @@ func ruleDedup(r *Run) {
 			if !ok || fieldOf(fa) == nil || fieldOf(fa).Name() != "Response" || !strings.HasSuffix(namedOf(fa.X.Type()), "executor.queryerResponse") {
 				continue
 			}
-			// the response value: result of copyMap or a fresh map literal
+			// the response value: result of a deep-copying function or a fresh map literal
 			v := st.Val
 			if _, isMake := v.(*ssa.MakeMap); isMake {
 				continue
 			}
 			n++
 			var cp *ssa.Call
-			if ex, ok := v.(*ssa.Extract); ok {
-				if c, ok := ex.Tuple.(*ssa.Call); ok && strings.HasSuffix(calleeName(&c.Call), "executor.copyMap") {
+			switch x := v.(type) {
+			case *ssa.Extract:
+				if c, ok := x.Tuple.(*ssa.Call); ok && x.Index == 0 {
 					cp = c
 				}
+			case *ssa.Call:
+				cp = x
 			}
-			if cp == nil {
+			var cpFn *ssa.Function
+			if cp != nil && !cp.Call.IsInvoke() {
+				if sc := cp.Call.StaticCallee(); sc != nil && inModule(sc) && len(sc.Blocks) > 0 {
+					cpFn = sc
+				}
+			}
+			if cpFn == nil {
 				r.Bad(rule, fnName(exq), "response copy per place", r.P.pos(st.Pos()), "a downstream answer is stored for an insertion point without being copied: de-duplicated answers would be shared between places and later merges/scrubs of one place would corrupt the others")
 				continue
 			}
+			deep, why := deepCopier(cpFn)
+			r.Check(deep, rule, fnName(cpFn), "copy of a shared answer is deep", r.P.pos(cpFn.Pos()),
+				"the copy shares nothing with its source: "+why,
+				"the function that copies a de-duplicated answer for each place does not copy the nested objects ("+why+"): the places share them, and they are stitched and scrubbed once per place — scrubbing one place strips the helper fields the other place still needs, later merges leak between places")
 			loop := innermostLoop(st.Block())
 			r.Check(loop != nil && loop[cp.Block()], rule, fnName(exq), "response copy per place", r.P.pos(cp.Pos()),
-				"copyMap is called inside the loop over the places that share the answer: one deep copy per place",
+				"the copy is made inside the loop over the places that share the answer: one deep copy per place",
 				"the answer of a de-duplicated lookup is copied once and that one map is stored for every place that needs it: the places then share nested objects, which are stitched and scrubbed once per place (C13: the second scrub no longer sees __typename and picks a helper list by map order; C01: later merges leak between places)")
 		}
 		r.AtLeast(rule, "stores of downstream answers", n, 1)
+
+		// R13k.slot: a request takes a target index (setIMap says "new") exactly when it adds
+		// one entry to the batch: the i-th answer belongs to the requests mapped to target i
+		var batchT string
+		for _, e := range r.P.CG.Ext[exq] {
+			if e.Name == "github.com/buildbuildio/pebbles/queryer.Queryer.Query" && len(e.Site.Common().Args) == 1 {
+				batchT = e.Site.Common().Args[0].Type().String()
+			}
+		}
+		isBatchAppend := func(ins ssa.Instruction) bool {
+			c, ok := ins.(*ssa.Call)
+			if !ok {
+				return false
+			}
+			b, isB := c.Call.Value.(*ssa.Builtin)
+			return isB && b.Name() == "append" && c.Type().String() == batchT
+		}
+		m := 0
+		for _, ins := range allInstrs(exq) {
+			c, ok := ins.(*ssa.Call)
+			if !ok || c.Call.IsInvoke() || c.Call.StaticCallee() == nil || r.P.declared(c.Call.StaticCallee()) != set || set == nil {
+				continue
+			}
+			m++
+			loop := innermostLoop(c.Block())
+			var fresh *ssa.BasicBlock
+			for _, ref := range *c.Referrers() {
+				if iff, ok := ref.(*ssa.If); ok && iff.Cond == ssa.Value(c) {
+					fresh = iff.Block().Succs[0]
+				}
+				if un, ok := ref.(*ssa.UnOp); ok && un.Op == token.NOT {
+					for _, r2 := range *un.Referrers() {
+						if iff, ok := r2.(*ssa.If); ok {
+							fresh = iff.Block().Succs[1]
+						}
+					}
+				}
+			}
+			good := loop != nil && fresh != nil && len(fresh.Preds) == 1 && batchT != ""
+			why := "the result of setIMap is not tested inside the request loop"
+			if good {
+				// every way from "new target index" back to the loop header adds one batch entry
+				var header *ssa.BasicBlock
+				for b := range loop {
+					for _, p := range b.Preds {
+						if !loop[p] {
+							header = b
+						}
+					}
+				}
+				min, max, cyclic, _ := pathCount(fresh, 0, func(b *ssa.BasicBlock) bool { return b == header || !loop[b] }, func(i ssa.Instruction) int {
+					if isBatchAppend(i) {
+						return 1
+					}
+					return 0
+				})
+				if cyclic || min != 1 || max != 1 {
+					good = false
+					why = fmt.Sprintf("after setIMap reported a new target index, %d..%d entries are added to the batch before the next request is looked at", min, max)
+				}
+				// and nothing else adds to the batch
+				for b := range loop {
+					for _, i2 := range b.Instrs {
+						if isBatchAppend(i2) && !(fresh == b || fresh.Dominates(b)) {
+							good = false
+							why = "the batch also grows where no target index was taken"
+						}
+					}
+				}
+			}
+			r.Check(good, "R13k.slot", fnName(exq), "one batch entry per new target index", r.P.pos(c.Pos()),
+				"a request is appended to the batch exactly when setIMap gave it a new target index, so answer i belongs to target index i",
+				"target indexes and batch positions drift apart ("+why+"): a request that is skipped after it took an index leaves a gap, every later answer is handed to the wrong requests and one place gets no answer at all")
+		}
+		if set != nil {
+			r.AtLeast("R13k.slot", "setIMap calls in executeRequests", m, 1)
+		}
 	}
+}
+
+// deepCopier: every value fn returns as its first result shares no container with fn's
+// arguments: it went through a JSON round trip, or it is built from fresh maps/slices whose
+// elements are themselves produced by deep copiers (scalars may be passed on as they are).
+func deepCopier(fn *ssa.Function) (bool, string) {
+	return deepCopierRec(fn, map[*ssa.Function]bool{})
+}
+
+func deepCopierRec(fn *ssa.Function, busy map[*ssa.Function]bool) (bool, string) {
+	if busy[fn] {
+		return true, "" // recursion: judged by the outer invocation
+	}
+	busy[fn] = true
+	defer delete(busy, fn)
+	if len(fn.Blocks) == 0 || fn.Signature.Results().Len() == 0 {
+		return false, fnName(fn) + " has no body or no result"
+	}
+	// JSON round trip: the result is what json.Unmarshal decoded from json.Marshal(param)
+	jsonTargets := map[*ssa.Alloc]bool{}
+	for _, ins := range allInstrs(fn) {
+		c, ok := ins.(*ssa.Call)
+		if !ok || calleeName(&c.Call) != "encoding/json.Unmarshal" || len(c.Call.Args) != 2 {
+			continue
+		}
+		al, isAl := unwrap(c.Call.Args[1]).(*ssa.Alloc)
+		if !isAl {
+			continue
+		}
+		fromMarshal := false
+		for _, i2 := range allInstrs(fn) {
+			m, ok := i2.(*ssa.Call)
+			if !ok || calleeName(&m.Call) != "encoding/json.Marshal" || len(m.Call.Args) != 1 {
+				continue
+			}
+			if _, isParam := unwrap(m.Call.Args[0]).(*ssa.Parameter); isParam && dependsOn(c.Call.Args[0], m) {
+				fromMarshal = true
+			}
+		}
+		if fromMarshal {
+			jsonTargets[al] = true
+		}
+	}
+	var val func(v ssa.Value, ret *ssa.Return, depth int) (bool, string)
+	val = func(v ssa.Value, ret *ssa.Return, depth int) (bool, string) {
+		if depth > 8 {
+			return false, "too deep"
+		}
+		if b, isBasic := v.Type().Underlying().(*types.Basic); isBasic && b.Kind() != types.UnsafePointer {
+			return true, ""
+		}
+		switch x := v.(type) {
+		case *ssa.Const:
+			return true, ""
+		case *ssa.MakeInterface:
+			return val(x.X, ret, depth+1)
+		case *ssa.ChangeType:
+			return val(x.X, ret, depth+1)
+		case *ssa.Phi:
+			for _, e := range x.Edges {
+				if ok, why := val(e, ret, depth+1); !ok {
+					return false, why
+				}
+			}
+			return true, ""
+		case *ssa.UnOp:
+			if al, isAl := x.X.(*ssa.Alloc); isAl && x.Op == token.MUL && jsonTargets[al] {
+				return true, ""
+			}
+		case *ssa.MakeMap:
+			for _, ref := range *x.Referrers() {
+				if mu, ok := ref.(*ssa.MapUpdate); ok && mu.Map == ssa.Value(x) {
+					if ok, why := val(mu.Value, ret, depth+1); !ok {
+						return false, "an entry of the new map is " + why
+					}
+				}
+			}
+			return true, ""
+		case *ssa.MakeSlice:
+			for _, ref := range *x.Referrers() {
+				switch y := ref.(type) {
+				case *ssa.IndexAddr:
+					for _, r2 := range *y.Referrers() {
+						if st, ok := r2.(*ssa.Store); ok && st.Addr == ssa.Value(y) {
+							if ok, why := val(st.Val, ret, depth+1); !ok {
+								return false, "an element of the new slice is " + why
+							}
+						}
+					}
+				case *ssa.Call:
+					if b, isB := y.Call.Value.(*ssa.Builtin); isB && (b.Name() == "copy" || b.Name() == "append") {
+						if _, scalar := x.Type().Underlying().(*types.Slice).Elem().Underlying().(*types.Basic); !scalar {
+							return false, "the new slice is filled with copy/append of the source's elements"
+						}
+					}
+				}
+			}
+			return true, ""
+		case *ssa.Extract:
+			if c, ok := x.Tuple.(*ssa.Call); ok && x.Index == 0 {
+				return val(c, ret, depth+1)
+			}
+		case *ssa.Call:
+			if sc := x.Call.StaticCallee(); sc != nil && !x.Call.IsInvoke() && inModule(sc) && len(sc.Blocks) > 0 {
+				return deepCopierRec(sc, busy)
+			}
+			return false, "the result of " + calleeDesc(&x.Call)
+		case *ssa.Parameter:
+			// handed back as it is: fine for a scalar held in an interface, i.e. where the
+			// assertions to a map type and to a slice type have both failed
+			if _, isIface := x.Type().Underlying().(*types.Interface); isIface && ret != nil {
+				gotMap, gotSlice := false, false
+				for _, ins := range allInstrs(fn) {
+					iff, ok := ins.(*ssa.If)
+					if !ok {
+						continue
+					}
+					ex, ok := iff.Cond.(*ssa.Extract)
+					if !ok || ex.Index != 1 {
+						continue
+					}
+					ta, ok := ex.Tuple.(*ssa.TypeAssert)
+					if !ok || ta.X != ssa.Value(x) {
+						continue
+					}
+					no := iff.Block().Succs[1]
+					if len(no.Preds) != 1 || !(no == ret.Block() || no.Dominates(ret.Block())) {
+						continue
+					}
+					switch ta.AssertedType.Underlying().(type) {
+					case *types.Map:
+						gotMap = true
+					case *types.Slice:
+						gotSlice = true
+					}
+				}
+				if gotMap && gotSlice {
+					return true, ""
+				}
+				return false, "the argument " + x.Name() + " itself, returned without having been told apart from a map and a list"
+			}
+			return false, "the argument " + x.Name() + " itself"
+		}
+		return false, "the source's own value (" + strings.TrimPrefix(fmt.Sprintf("%T", v), "*ssa.") + " " + v.Name() + ")"
+	}
+	rets := returnsOf(fn)
+	for _, ret := range rets {
+		if ok, why := val(retVals(ret)[0], ret, 0); !ok {
+			return false, why
+		}
+	}
+	if len(rets) == 0 {
+		return false, "no return"
+	}
+	how := "built from new maps/lists whose entries are copied in turn"
+	if len(jsonTargets) > 0 {
+		how = "it is decoded from the JSON encoding of the source"
+	}
+	return true, how
 }
 
 // dependsOnThroughMem: like dependsOn, but also follows values stored into the variadic
@@ -602,10 +970,29 @@ func ruleStitchVariable(r *Run) {
 			}
 		}
 	}
-	for _, ins := range allInstrs(setm) {
-		if lk, ok := ins.(*ssa.Lookup); ok {
-			if k, ok := lk.Index.(*ssa.Const); ok && k.Value != nil {
-				looked = append(looked, strings.Trim(k.Value.ExactString(), `"`))
+	// the lookups of the de-duplication key: in setIMap or in the helpers of its package it
+	// hands the request variables to
+	lookFns := []*ssa.Function{setm}
+	for i := 0; i < len(lookFns) && i < 8; i++ {
+		for _, e := range r.P.CG.Out[lookFns[i]] {
+			if e.Kind != "static" || e.Callee.Pkg != setm.Pkg || e.Callee.Signature.Recv() != nil && e.Callee != setm {
+				continue
+			}
+			dup := false
+			for _, f := range lookFns {
+				dup = dup || f == e.Callee
+			}
+			if !dup {
+				lookFns = append(lookFns, e.Callee)
+			}
+		}
+	}
+	for _, lf := range lookFns {
+		for _, ins := range allInstrs(lf) {
+			if lk, ok := ins.(*ssa.Lookup); ok {
+				if k, ok := lk.Index.(*ssa.Const); ok && k.Value != nil && k.Value.Kind() == constant.String {
+					looked = append(looked, constant.StringVal(k.Value))
+				}
 			}
 		}
 	}
